@@ -16,8 +16,6 @@ pub enum Pos {
     Elem,
     /// element of a fixed-width vector: never `empty`
     FixedVec,
-    /// last element of a variable-width vector: never a zero-length body
-    VarVecLast,
 }
 
 pub fn native(rng: &mut Rng) -> NativeType {
@@ -82,7 +80,8 @@ fn i32_boundary(rng: &mut Rng) -> i32 {
 
 pub fn gen_native(rng: &mut Rng, n: &NativeType, pos: Pos) -> Val {
     use NativeType as N;
-    let nonempty = pos == Pos::VarVecLast;
+    let nonempty = false;
+    let _ = pos;
     let slen = |rng: &mut Rng| {
         let l = len_small(rng);
         if nonempty && l == 0 { 1 } else { l }
@@ -158,7 +157,7 @@ pub fn gen_val(rng: &mut Rng, t: &Ty, pos: Pos, size: u32) -> Val {
     if pos == Pos::Nullable && rng.chance(1, 7) {
         return Val::Null;
     }
-    if supports_empty(t) && pos != Pos::FixedVec && pos != Pos::VarVecLast && rng.chance(1, 25) {
+    if supports_empty(t) && pos != Pos::FixedVec && rng.chance(1, 25) {
         return Val::Empty;
     }
     let count = |rng: &mut Rng| if size == 0 { rng.below(2) as usize } else { len_small(rng).min(2 + 3 * size as usize) };
@@ -173,7 +172,8 @@ pub fn gen_val(rng: &mut Rng, t: &Ty, pos: Pos, size: u32) -> Val {
             Val::Vector(
                 (0..*dim)
                     .map(|i| {
-                        let p = if fixed { Pos::FixedVec } else if i + 1 == *dim { Pos::VarVecLast } else { Pos::Elem };
+                        let _ = i;
+                        let p = if fixed { Pos::FixedVec } else { Pos::Elem };
                         gen_val(rng, e, p, s)
                     })
                     .collect(),
@@ -306,6 +306,10 @@ fn mismatch(rng: &mut Rng, depth: u32, emit: &mut dyn FnMut(String)) {
             break_val(rng, &t, v)
         }
     };
+    // shapes of known findings are replayed from the corpus only
+    if matches!(classify(&t, &v, true), Dom::Known(_)) {
+        return;
+    }
     emit_dyn(emit, &t, &v);
 }
 
